@@ -198,6 +198,32 @@ def model_json(run, m):
             out[name] = model_val(m, c)
         except z3.Z3Exception:
             pass
+    # membership of the scalar inputs in the symbolic PRE-STATE sets (and key sets of dicts): `<set path>#members` lists the inputs the model puts
+    # into the set, so that the native state builder can populate it (a model's array interpretation is not exported otherwise)
+    try:
+        heap0 = getattr(run, "old_heap", None) or {}
+        seen_syms = set()
+        recs = (list(heap0.values()) if isinstance(heap0, dict) else []) + list(run.heap.values())     # lazily materialised pre-state lives in the current heap
+        for rec in recs:
+            sym = getattr(rec, "sym", None)
+            dom = getattr(rec, "dom", None)
+            if not sym or dom is None or not isinstance(rec, (SetRec, DictRec)) or "@" in sym or "!" in sym or sym in seen_syms:
+                continue
+            seen_syms.add(sym)
+            while z3.is_store(dom):
+                dom = dom.arg(0)        # the entry value of the set: writes of this call peeled off
+            mem = []
+            for name, c in run.inputs.items():
+                if c.sort() == dom.sort().domain() and "#" not in name and "@" not in name:
+                    try:
+                        if z3.is_true(m.eval(z3.Select(dom, c), model_completion=True)):
+                            mem.append(model_val(m, c))
+                    except z3.Z3Exception:
+                        pass
+            if mem and isinstance(rec, SetRec):
+                out[sym + "#members"] = mem
+    except Exception:      # noqa
+        pass
     return out
 
 
